@@ -16,6 +16,7 @@ EXPLANATION = (
     '(4) the writers of stderr in lib+bin are exactly the emitter, the generator stderr pass-through and the critical-error line; (5) with '
     'disable_color both colour switches are turned off before anything is written and no string constant contains an escape sequence. '
     'JSON escaping is serde_json\'s (trusted). Decides these clauses, not byte-exact output.')
+THOROUGH_RERUN = ['release']     # the same rules over the release build (no debug assertions): verified clean on the pinned tree
 ASSUMPTIONS = ['rustc type checking and MIR construction', 'serde_json escapes strings correctly and writes one object per serialize_struct', 'console honours set_colors_enabled']
 DL = 'slicec::diagnostics::diagnostic::DiagnosticLevel'
 EM = "slicec::diagnostic_emitter::DiagnosticEmitter::<'a, T>::"
